@@ -773,7 +773,7 @@ def problems(spec, A, out):
         und = undecided_bare(spec, A)
         site = out[3].split("@")[1]
         typ = {"parse_int": "int", "parse_float": "float", "parse_boolean": "bool"}.get(site)
-        if typ and any(o["type"] == typ for o in und):
+        if typ and "None" in out[2] and any(o["type"] == typ for o in und):
             # bare optional-value option, default None, non-nullable int/float/bool: 'no value' has no conversion to the
             # declared type, so there is no assignment to recover (outside the quantifier of C01).  The documented
             # outcome for a value that does not convert is ValueError; anything else (D3: TypeError) is reported.
